@@ -62,6 +62,17 @@ CLAIMS["C19"] = (
     "not checked beyond which stepsize value it reads.",
     "DESIGN.md 4/C19")
 
+CLAIMS["C17"] = (
+    "file-set agreement + dominance of a completed copy to a different path before the truncating open (CFG with implicit destructors) + validation-after-last-read and handler coverage "
+    "of each recovery deserialiser + must-pass-through of checkpoint() + restart budget initialiser + lost-update lint on the restore code",
+    "Static rule discharge over the four instantiations of constructCommon<parallel,guess>, its lambdas and the deserialisers it calls: the recovery code reads exactly the two files the "
+    "checkpoint code writes; the current file is copied to the backup path (different from the source), with the copy streams destroyed, before it is truncated; each deserialiser in "
+    "the recovery try ends in a stream or end-marker validation that throws the type the handler catches; every stored sample is followed by a checkpoint on every path; the launched "
+    "count after a restart includes recovered samples. These are shape facts and hold for every crash point that leaves a file either complete or truncated.",
+    "Not decided: atomicity of writes inside the file system, and exceptions other than std::runtime_error raised by the grid reader on garbage sizes of a torn grid section "
+    "(noted in DESIGN.md). A failed read leaves the grid cleared; behaviour when both files are unreadable is out of scope. D5/D6 were written after seeds C17-a/b were known.",
+    "DESIGN.md 4/C17")
+
 PENDING = {}
 
 NOT_APPLICABLE = {}
